@@ -40,6 +40,27 @@ theorem C08_same_as_alone (ls : List (Local Id V E)) (hd : DisjointIds ls) (l : 
   have : DisjointIds [l] := by simpa [DisjointIds] using hl1
   rw [C08_isolation [l] this l (by simp) i hi]
 
+/-- **what `DisjointIds` rests on.** Identities are SHA-256 of `kind ++ text ++ path` (no separator). Two entities of
+    different files with one pre-image exist only when one file's path is a proper suffix of the other's — for the
+    absolute paths of one scan: a directory chain inside the project that repeats the project's own absolute path.
+    That contrived layout really collides on the unchanged tree (recorded finding C08:path-suffix-collision);
+    everywhere else the identities of different files are disjoint, up to SHA-256 collisions. -/
+theorem C08_collision_needs_suffix_path (k c₁ f₁ c₂ f₂ : List Char) (h : k ++ c₁ ++ f₁ = k ++ c₂ ++ f₂) (hne : f₁ ≠ f₂) :
+    (∃ t, t ≠ [] ∧ f₁ = t ++ f₂) ∨ (∃ t, t ≠ [] ∧ f₂ = t ++ f₁) := by
+  rw [List.append_assoc, List.append_assoc] at h
+  have h' := List.append_cancel_left h
+  rcases List.append_eq_append_iff.1 h' with ⟨a, _, h2⟩ | ⟨a, _, h2⟩
+  · left
+    refine ⟨a, ?_, h2⟩
+    intro ha; subst ha; exact hne (by simpa using h2)
+  · right
+    refine ⟨a, ?_, h2⟩
+    intro ha; subst ha; exact hne (by simpa using h2.symm)
+
+/-- the witness of the finding: root `/x`, `a/b` in `/x/x/X.java`, `a/b/x` in `/x/X.java` — one pre-image -/
+example : "div_expression".toList ++ "a/b".toList ++ "/x/x/X.java".toList
+        = "div_expression".toList ++ "a/b/x".toList ++ "/x/X.java".toList := by decide
+
 /-- a file that cannot be read or parsed contributes nothing: the list of per-file graphs is filtered -/
 def skipFaulty (results : List (Option (Local Id V E))) : List (Local Id V E) := results.filterMap id
 
